@@ -105,8 +105,12 @@ def install() -> None:
     def abort(self: Any, run_id: str) -> None:
         run = _cur()
         if run is not None:
+            try:
+                buf = [enc.tick(t) for t in (run.runner.tick_buffer if run.runner is not None else [])]
+            except Exception as ex:  # noqa: BLE001
+                buf = [f"<unencodable {type(ex).__name__}>"]
             run.marks.append({"kind": "abort", "t": asyncio.get_event_loop().time(), "idx": len(run.trace.calls),
-                              "heap": heap_info(run.runner), "runner": run.runner})
+                              "heap": heap_info(run.runner), "runner": run.runner, "buffer": buf})
         orig_abort(self, run_id)
 
     async def release(self: Any, run_id: str) -> None:
@@ -210,7 +214,10 @@ def run_server(spec: dict, seed: int, conf: dict | None = None, replay_actions: 
                     if is_live and run.runner is not None and row["status"] == "running":
                         r = run.runner
                         base = next((nw for (_i, rr, nw) in run.inits if rr is r), 0)
-                        snap = corr._summary(live._runner_info(run), len(run.writes) - base) + " ;; " + enc.state(r.state)
+                        try:
+                            snap = corr._summary(live._runner_info(run), len(run.writes) - base) + " ;; " + enc.state(r.state)
+                        except enc.EncError:
+                            snap = None  # fractional times (the F13 witnesses): monitors only, no model comparison
                     run.marks.append({"kind": "quiet", "t": loop.time(), "idx": len(run.trace.calls), "row": row, "live": is_live,
                                       "snap": snap, "inits": len(run.inits)})
                     if row["status"] in TERMINAL:
@@ -219,7 +226,11 @@ def run_server(spec: dict, seed: int, conf: dict | None = None, replay_actions: 
                     if loop.time() - t0 > horizon or rounds > 400:
                         st_out.end = "horizon"
                         break
-                    has_timer = any(not h._cancelled for h in loop._scheduled)  # type: ignore[attr-defined]
+                    whens = [h._when for h in loop._scheduled if not h._cancelled]  # type: ignore[attr-defined]
+                    has_timer = bool(whens)
+                    if plan is None and whens and min(whens) - t0 > horizon:
+                        st_out.end = "horizon"  # nothing is due within the observation window
+                        break
                     if plan is not None:
                         if not plan:
                             st_out.end = "plan-done"
@@ -378,6 +389,9 @@ def model_lines(tr: STrace) -> tuple[list[str], list[str]]:
             ops.append("ext " + enc.tick(m)); outs.append("ok")
         elif kind == "release":
             ab = last_abort.get(m["idx"]) if m["released"] else None
+            if ab is not None and ab["buffer"]:
+                # the loop had just moved its due timers into the tick buffer when the release cancelled it
+                ops.append(f"rtimer {enc.num(m['t'])}"); outs.append(enc.lst(ab["buffer"]))
             if ab is not None:
                 ops.append("timers"); outs.append(enc.lst([h[5] for h in ab["heap"] if h[1] in ("retry", "wtimeout")]))
             ops.append(f"release {enc.num(m['t'])}"); outs.append("ok")
